@@ -225,6 +225,8 @@ class Translator:
         if isinstance(e, A.ByteValue):
             return T('Lit', word(e.data & 0xFF, w))
         if isinstance(e, A.IntValue):
+            if not (-(1 << (8 * w - 1)) <= e.data < (1 << (8 * w - 1))):
+                self.features.add('literal_exceeds_word')      # (a folded constant may not fit: C18 word ladder)
             return T('Lit', word(e.data, w))
         if isinstance(e, A.BoolValue):
             return T('Lit', word(1 if e.data else 0, w))
